@@ -8,7 +8,8 @@
 (*   {"k":"reset","id":..,"kind":"map|value|event","impl":"client|hosted", *)
 (*    "ewns":b,"tou":b}                         a fresh downlink            *)
 (*   {"k":"linked"|"synced"|"unlinked"|"update"|"remove"|"clear"|"take"|   *)
-(*         "drop"|"event"|"w_update"|"w_remove"|"w_clear"|"w_set",         *)
+(*         "drop"|"event"|"w_update"|"w_remove"|"w_clear"|"w_set"|         *)
+(*         "drop_handles"|"out_fail",                                      *)
 (*    "key":..,"val":..,"n":..,                 the input                   *)
 (*    "cbs":[{"cb","key","old","new","map"}],   callbacks it caused         *)
 (*    "done":b}                                 downlink terminated         *)
@@ -34,8 +35,8 @@ CONSTANTS NK, NV, EnabledFindings
 Rec == ndJsonDeserialize(IOEnv.TRACE)
 
 P == INSTANCE DownlinkState WITH Kinds <- {}, EwnsSet <- {}, TouSet <- {}, Counts <- {},
-                                 LocalWrites <- FALSE, Illegal <- FALSE, MaxLen <- 0,
-                                 cf <- 0, st <- 0, c <- 0, h <- 0, lastAct <- 0, trace <- 0
+                                 LocalWrites <- FALSE, Illegal <- FALSE, EnvFaults <- FALSE, MaxLen <- 0,
+                                 cf <- 0, st <- 0, c <- 0, h <- 0, io <- 0, lastAct <- 0, trace <- 0
 
 VARIABLES i,        \* next event
           cur,      \* the reset event of the current case
